@@ -210,6 +210,11 @@ def immediates(draw, name: str, allow_slashes=True):
             vals.append(v)
             if not t.isdigit() or (len(t) > 1 and t[0] == "0"):
                 feats.append("int_nondecimal")
+        elif kind == "u8opt":
+            if draw(st.booleans()):
+                t, v = draw(int_tok(u8_values))
+                toks.append(t)
+                vals.append(v)
         elif kind == "i8":
             v = draw(st.integers(-128, 127))
             toks.append(str(v))
@@ -367,6 +372,14 @@ def recognise(text: str) -> Optional[Tuple[str, List[Any]]]:
     pos = 0
     for k, kind in enumerate(op.imm):
         last = k == len(op.imm) - 1
+        if kind == "u8opt":
+            if pos < len(rest):
+                v = decode_int(rest[pos])
+                if v is None:
+                    return None
+                vals.append(v)
+                pos += 1
+            continue
         if kind in ("u8", "u64", "i8"):
             if pos >= len(rest):
                 return None
